@@ -269,7 +269,9 @@ static void ts_lexer__do_advance(Lexer *self, bool skip) {
 // chunk of source code if needed.
 static void ts_lexer__advance(TSLexer *_self, bool skip) {
   Lexer *self = (Lexer *)_self;
-  if (!self->chunk) return;
+  // At the end of the included ranges there is no current range to advance in: after
+  // `get_column` the lexer can hold a chunk there, so the chunk alone does not tell.
+  if (!self->chunk || ts_lexer__eof(_self)) return;
 
   if (skip) {
     LOG("skip", self->data.lookahead)
